@@ -10,6 +10,8 @@
 (* (four combinations of these).                                           *)
 (* Family B (the helper part): a few tables x per-host helper for h1       *)
 (* {absent, "", A} x default store {"", B} x what A and B do (5 x 5).      *)
+(* Family C (helper answers with members left out): 2 tables x store B x   *)
+(* per-host helper {absent, h1:A, h2:A} x what A and B do (11 x 11).       *)
 (***************************************************************************)
 EXTENDS OciAuthFile, Json
 
@@ -81,16 +83,26 @@ FamilyBOf(t) ==
       ch \in {<<>>, <<[host |-> H1, helper |-> ""]>>, <<[host |-> H1, helper |-> "A"]>>,
               <<[host |-> H2, helper |-> "A"]>>}}
 
+\* Family C: helper programs whose answers leave members out, next to ones that answer in full: the answer
+\* for a host must not pick up anything from the answer given for another host before.
+PartialKinds == {"useronly", "secretonly", "emptyobj", "urlonly", "extra", "mixed"}
+FamilyC ==
+  {[auths |-> t, credsStore |-> "B", credHelpers |-> ch, helpers |-> Helpers(ka, kb)] :
+      t \in {<<>>, <<Entry(H1, "up", 1)>>}, ka \in BehKinds \cup PartialKinds, kb \in BehKinds \cup PartialKinds,
+      ch \in {<<>>, <<[host |-> H1, helper |-> "A"]>>, <<[host |-> H2, helper |-> "A"]>>}}
+  \ (FamilyBOf(<<>>) \cup FamilyBOf(<<Entry(H1, "up", 1)>>))
+
 \* Two stages, so that TLC's workers share the enumeration: the initial states only fix the
 \* key forms (family A) or the table (family B); Pick then chooses the rest.
 VARIABLES seed, picked
 mvars == <<cfg, loaded, tbl, last, seed, picked>>
 Seeds == {[fam |-> "A", fs |-> s, t |-> <<>>] : s \in {s \in FormSeqs : Increasing(s)}}
          \cup {[fam |-> "B", fs |-> <<>>, t |-> t] : t \in Tables0}
+         \cup {[fam |-> "C", fs |-> <<>>, t |-> <<>>]}
 EmptyCfg == [auths |-> <<>>, credsStore |-> "", credHelpers |-> <<>>, helpers |-> Helpers("creds", "creds")]
 Init == seed \in Seeds /\ picked = FALSE /\ AInit({EmptyCfg})
 Pick == /\ ~picked /\ picked' = TRUE
-        /\ cfg' \in IF seed.fam = "A" THEN FamilyAOf(seed.fs) ELSE FamilyBOf(seed.t)
+        /\ cfg' \in IF seed.fam = "A" THEN FamilyAOf(seed.fs) ELSE IF seed.fam = "B" THEN FamilyBOf(seed.t) ELSE FamilyC
         /\ UNCHANGED <<loaded, tbl, last, seed>>
 Next == \/ Pick
         \/ picked /\ UNCHANGED <<seed, picked>> /\ (LoadAct \/ \E h \in QHosts : QueryAct(h))
